@@ -79,7 +79,7 @@ TEXT = {
  "C17": {
   "technique": "exhaustive enumeration of conventional pagers (N, k, URL family, markup) with expected next/prev links known by construction",
   "level": "Exploration, exhaustive over the stated finite product in the thorough tier (quick: a seed-rotated slice with all N,k cells and all families).",
-  "note": "Domain restricted to one-pattern pagers with neutral URL words and plain Prev/Next labels, as the property states.", "ref": "DESIGN.md 4/C17",
+  "note": "Domain restricted to one-pattern pagers with neutral URL words, neutral container names and plain Prev/Next labels, as the property states; a sub-product renders the numbered links with a non-displayed label.", "ref": "DESIGN.md 4/C17",
  },
  "C14": {
   "technique": "property-based testing (rapid): structured markup specifications rendered as a full page and three single-source pages; oracles = metamorphic precedence fold of the single-source results plus by-construction reference for OpenGraph qualification, opt-out and per-source pins; thorough tier adds coverage-guided go fuzzing of the generator's bit-stream (rapid.MakeFuzz, same oracle)",
@@ -98,12 +98,12 @@ TEXT = {
  },
  "C19": {
   "technique": "property-based testing (rapid): embed sources built from hosts whose allow-list status is known by construction; oracle = every placeholder traces to an allow-listed true host with the constructed type and id, no frame survives outside placeholders; thorough tier adds coverage-guided go fuzzing of the generator's bit-stream (rapid.MakeFuzz, same oracle)",
-  "level": "Exploration: tens of thousands of generated pages per run over 30 host forms x schemes x path shapes x 5 tag kinds.",
+  "level": "Exploration: tens of thousands of generated pages per run over 36 host forms x schemes x path shapes x 5 tag kinds.",
   "note": "Only the 'only if' direction of acceptance is asserted.", "ref": "DESIGN.md 4/C19",
  },
  "C20": {
   "technique": "property-based testing (rapid): metamorphic triple (page, page with marked subtrees deleted, page with markers renamed); oracle = R(D)=R(D_del) if that yields >=500 words else R(D)=R(D_ren)",
   "level": "Exploration: thousands of generated triples per run on both sides of the 500-word threshold, incl. exactly 499/500.",
-  "note": "Marker vocabulary restricted to words no other heuristic reads; Title, MarkupInfo and PaginationInfo are not compared.", "ref": "DESIGN.md 4/C20",
+  "note": "Marker vocabulary restricted to words no other heuristic reads; elements whose class/id holds an unlikely keyword together with a rescue keyword are no marked subtrees (both reference pages carry them with neutral names); Title, MarkupInfo and PaginationInfo are not compared.", "ref": "DESIGN.md 4/C20",
  },
 }
